@@ -267,6 +267,9 @@ where
   repeatStr (s : String) (n : N) : Res N :=
     let k := NumOps.truncI64 n
     if k < 0 then some [.val .null .off]
+    -- decided arithmetically, never by materialising: `"" * 9223372036854775807` is `""` (Rust's
+    -- `"".repeat(n)` allocates nothing), and the size test below is vacuous for an empty string
+    else if s.utf8ByteSize = 0 then some [.val (.str "") .off]
     else if k.toNat * s.utf8ByteSize > 2000000 then none
     else some [.val (.str (String.join (List.replicate k.toNat s))) .off]
   splitStr (s sep : String) : List String :=
